@@ -575,8 +575,10 @@ func firstDiff(a, b []string) string {
 func hostMarkers(extra ...string) [][]byte {
 	seen := map[string]bool{}
 	var out [][]byte
+	img := initialImage()
 	add := func(s string) {
-		if len(s) >= 6 && !seen[s] {
+		// strings that the scripts themselves contain cannot serve as markers
+		if len(s) >= 6 && !seen[s] && !bytes.Contains(img, []byte(s)) {
 			seen[s] = true
 			out = append(out, []byte(s))
 		}
@@ -594,6 +596,9 @@ func hostMarkers(extra ...string) [][]byte {
 	}
 	if wd, err := os.Getwd(); err == nil {
 		add(wd)
+		if b, err := os.ReadFile(filepath.Join(wd, "etc", "passwd")); err == nil && len(b) < 200 {
+			add(strings.TrimSpace(string(b)))
+		}
 		if des, err := os.ReadDir(wd); err == nil {
 			for k, d := range des {
 				if k >= 20 {
